@@ -88,6 +88,7 @@ def run(rep, tier):
             rep.broken.append("only %d one-shot decrypt functions found in %s" % (n, b.cfg.name))
         check_sites(rep, m, b.cfg.name)
         rule_compare(rep, m, b.cfg.name)
+    rule_inverse(rep, tier)
     k = len(builds)
     rep.floor("C02.D1", 12 * k)
     rep.floor("C02.D2", 16 * k)
@@ -308,8 +309,7 @@ def rule_compare(rep, m, cname):
     pt, plen, t1, t2, size = f.params[:5]
     loops = f.d.get("loops", [])
     if len(loops) != 2:
-        rep.violation(rid, "check_tag:loops", f.src, "%s has %d loops, expected a compare loop and a mask loop" % (CHECK, len(loops)),
-                      config=cname)
+        _refute_or_unproved(rep, rid, m, f, cname, "%d loops instead of a byte-wise compare loop and a mask loop" % len(loops))
         return
     cmp_loop = mask_loop = None
     for lp in loops:
@@ -324,7 +324,7 @@ def rule_compare(rep, m, cname):
         elif ("param", pt) in roots:
             mask_loop = lp
     if cmp_loop is None or mask_loop is None:
-        rep.violation(rid, "check_tag:loops", f.src, "could not identify the compare and mask loops", config=cname)
+        _refute_or_unproved(rep, rid, m, f, cname, "compare / mask loops not identified")
         return
     # --- coverage: trip counts and strides
     def covers(lp, count_param, ptr_params):
@@ -433,3 +433,75 @@ def rule_compare(rep, m, cname):
                       "with accumulated difference %#x a plaintext byte %#x becomes %#x, expected %#x" % badm, config=cname)
     else:
         rep.instance(rid, 1, {"config": cname, "mask": "plaintext kept iff accumulator == 0"})
+
+
+def rule_inverse(rep, tier):
+    """D6 (bounded): for every key / nonce / data value of the enumerated
+    shapes, decrypting the specification's ciphertext returns success and the
+    original plaintext (one-shot, incremental, masked), and an unrelated tag is
+    rejected with -1 and a wiped plaintext - mode-level symbolic comparison with
+    the permutation uninterpreted (av/sponge.py).  SIV and ISAP inverses are
+    part of the C06 cases."""
+    from . import modecheck, modes
+    rid = "C02.D6"
+    rep.rule(rid, "decrypt(encrypt(m)) = m with success; unrelated tag rejected and plaintext wiped (bounded shapes)")
+    prep = modes.prepare(tier)
+    shapes = [(0, 0), (1, 1), (8, 9), (17, 33)] if tier == "quick" else [(a, n) for a in (0, 1, 8, 9, 17) for n in (0, 1, 7, 8, 9, 16, 17, 33)]
+    cases = []
+    for js, cname, layout, maxs, units in prep:
+        if cname not in rep.configs:
+            rep.configs.append(cname)
+        for alg in ("128", "128a", "80pq"):
+            for fam in ("oneshot", "incremental", "masked"):
+                for (a, n) in shapes:
+                    cases.append((js, cname, layout, "case_aead_decrypt", (alg, fam, a, n),
+                                  "%s %s ad %d message %d" % (alg, fam, a, n),
+                                  "ascon%s_%s" % (alg, {"oneshot": "aead_decrypt", "incremental": "aead_decrypt_finalize",
+                                                        "masked": "masked_aead_decrypt"}[fam])))
+    for d in modecheck.run_cases("C02", rid, tier, cases, None):
+        rep.merge(d)
+    rep.floor_discharged(rid, int(0.9 * len(cases)))
+
+
+def _refute_or_unproved(rep, rid, m, f, cname, why):
+    """The comparison routine does not have the shape the proof rule knows.
+    No alarm is raised for that alone; the routine is evaluated (constant
+    propagation through the IR, av/affine.Machine) on equal tags and on all
+    128 single-bit tag differences - a wrong verdict there is a concrete
+    refutation and is reported with its witness; otherwise the obligations are
+    recorded as unproved."""
+    from .affine import Machine, Unsupported, const_bits, to_int
+    from .sponge import cbytes
+    base = bytes(range(0x10, 0x20))
+    witness = None
+    try:
+        for bit in [None] + list(range(128)):
+            mc = Machine(m)
+            t1 = mc.new_obj("t1", 16, symbolic=False)
+            t2 = mc.new_obj("t2", 16, symbolic=False)
+            pt = mc.new_obj("pt", 4, symbolic=False)
+            other = bytearray(base)
+            if bit is not None:
+                other[bit // 8] ^= 1 << (bit % 8)
+            mc.store(t1, cbytes(base))
+            mc.store(t2, cbytes(bytes(other)))
+            mc.store(pt, cbytes(b"\xa5\x5a\xff\x01"))
+            r = to_int(mc.call(CHECK, [pt, const_bits(4, 64), t1, t2, const_bits(16, 64)]))
+            plain = bytes(to_int(mc.load(pt, 4)[8 * k:8 * k + 8]) for k in range(4))
+            if bit is None:
+                if r != 0 or plain != b"\xa5\x5a\xff\x01":
+                    witness = "identical tags give verdict %s / plaintext %s" % (r, plain.hex())
+                    break
+            elif r != 0xffffffff or plain != b"\x00" * 4:
+                witness = ("tags differing only in bit %d of byte %d give verdict %s and plaintext %s (expected -1 and a "
+                           "wiped plaintext)" % (bit % 8, bit // 8, "0 (accepted)" if r == 0 else r, plain.hex()))
+                break
+    except Unsupported as e:
+        rep.unproved_item(rid, "%s: %s has an unrecognised shape (%s) and could not be evaluated: %s" % (cname, CHECK, why, e))
+        return
+    if witness:
+        rep.violation(rid, "check_tag:verdict", f.src, "%s: %s" % (CHECK, witness), config=cname)
+    else:
+        for _ in range(5):
+            rep.unproved_item(rid, "%s: %s has an unrecognised shape (%s); equal tags and all 128 single-bit differences "
+                              "are judged correctly, full proof not available" % (cname, CHECK, why))
